@@ -1513,6 +1513,7 @@ package goatlang
 //@   modifies fields(t) elems(t.Tokens)
 //@   allocates elems(*token) elems(any)
 //@   panics_iff b == nil || t == nil
+//@   ensures#arr isfresh(arr(t.Tokens)) || (arr(t.Tokens) == old(arr(t.Tokens)) && old(len(t.Tokens)) < old(cap(t.Tokens)))
 //@   ensures len(t.Tokens) == old(len(t.Tokens)) + 1 && t.Tokens[len(t.Tokens)-1] == b && t.Symbol == old(t.Symbol) && t.Text == old(t.Text) && t.Pos == old(t.Pos)
 //@   ensures forall j int :: 0 <= j && j < old(len(t.Tokens)) ==> t.Tokens[j] == old(t.Tokens[j])
 //@
@@ -1624,6 +1625,9 @@ package goatlang
 //@   assert#depsHoisted @L0.4 pkg == topPkg || hoisted(p)
 //@   assert#ready @L3.3 found && len(deps[pkg]) == 0
 //@   callsite#inrange golang.org/x/exp/slices.Delete: 0 <= arg_1 && arg_1 <= arg_2 && arg_2 <= len(arg_0)
+//@   assert#stubshape @C03 @L3.10 tok != nil && len(tok.Tokens) >= 1
+//@   assert#stubframe @C03 @L3.10 forall j int :: 0 <= j && j < len(res) ==> res[j] != nil && len(res[j].Tokens) >= 1
+//@   ensures#nonempty @C03 isnil(result1) ==> (forall j int :: 0 <= j && j < len(result0) ==> result0[j] != nil && len(result0[j].Tokens) >= 1)
 //@ func loadImports loop 0
 //@   invariant true
 //@ func loadImports loop 1
@@ -1631,7 +1635,8 @@ package goatlang
 //@ func loadImports loop 2
 //@   invariant t != nil && i >= 1
 //@ func loadImports loop 3
-//@   invariant true
+//@   invariant#resfresh cap(res) == 0 || (isfresh(arr(res)) && arr(res) != 0)
+//@   invariant#nonempty forall j int :: 0 <= j && j < len(res) ==> res[j] != nil && len(res[j].Tokens) >= 1
 //@ func loadImports loop 4
 //@   invariant !found
 //@ func loadImports loop 5
